@@ -427,8 +427,12 @@ k ^ ( k >> 33 ) }
 
 
 // ================= hash/mod.rs =================
-fn compute_seed_hash ( seed : u64 ) -> ( r : u16 ) requires seed_hash_spec ( seed ) != 0 , ensures
-/*@C16.seed_hash*/ r == seed_hash_spec ( seed ) , r != 0 , {
+// R12b: a DOCUMENTED panic ("Panics if the computed seed hash is zero") is modelled as 'returns only if the condition holds': the
+// condition is a tagged POSTCONDITION instead of a precondition, so weakening or removing the check is noticed.  Body = the original statement.
+#[verifier::external_body] fn vx_documented_panic(c: bool) ensures c { assert!(c); }
+fn compute_seed_hash ( seed : u64 ) -> ( r : u16 ) ensures
+/*@C16.seed_hash*/ r == seed_hash_spec ( seed ) ,
+/*@C16.seed_hash_nonzero_validated*/ r != 0 && seed_hash_spec ( seed ) != 0 , {
 use std :: hash :: Hasher ;
 let mut hasher = MurmurHash3X64128 :: with_seed ( 0 ) ;
 hasher . write ( & vx_u64_to_le_bytes ( seed ) ) ;
@@ -440,7 +444,7 @@ proof {
 assert ( h1 & 0xffff == h1 % 0x10000 && h1 & 0xffff == 0xffff & h1 ) by ( bit_vector ) ;
 }
 let seed_hash = ( h1 & 0xffff ) as u16 ;
-assert! ( seed_hash != 0 ) ;
+vx_documented_panic ( seed_hash != 0 ) ;
 seed_hash }
 
 
